@@ -17,7 +17,8 @@ BOUND = ("forall(lambda j: isinstance(val_at(obj_dict(props), j), _Property) and
 contract(P + "Properties.__init__",
          requires="is_obj(element) and (is_np(props) or (isinstance(props, _PropertyDict) and dict_wf(obj_dict(props)) and " + BOUND + ")) and "
                   "(pattern is None or is_np(pattern) or dict_wf(pattern)) and (is_bool(additional) or is_obj(additional))",
-         returns="self.element is element and implies(is_obj(additional), self.additional is additional) and "
+         returns="self.element is element and self.props is (props if truthy(props) else {}) and isinstance(self.pattern, PatternDict) and "
+                 "obj_dict(self.pattern) is (pattern if truthy(pattern) else {}) and implies(is_obj(additional), self.additional is additional) and "
                  "implies(additional is True, type_is(self.additional, Element)) and implies(additional is False, type_is(self.additional, Nothing))",
          modifies=["self"], idempotent_writes=["_Property.bind"],
          kinds={"prop": "_Property"}, props=["C01", "C05", "C08", "C13", "C14"])
